@@ -24,6 +24,8 @@ def repeatBoxPassesAmount : Bool := true
 def distanceCalls : List (Nat × Nat × Bool) := [(1, 2, true)]
 def angleCalls : List (Nat × Nat × Bool) := [(1, 2, true), (3, 2, true)]
 def dihedralCalls : List (Nat × Nat × Bool) := [(1, 2, true), (2, 3, true), (3, 4, true)]
+/-- `unitcell_from_vectors`: rows (u, v) whose dot product gives alpha, beta, gamma ((9, 9) = not a dot product of two box vectors) -/
+def unitcellAngleDots : List (Nat × Nat) := [(1, 2), (0, 2), (0, 1)]
 /-- the round-off clean-up of `vectors_from_unitcell` compares with a tolerance built from the SUM of the lengths -/
 def unitcellTolUsesSum : Bool := false
 end BiotiteModel.Gen.C15
